@@ -38,6 +38,8 @@ protected:
 
     template <class TreeClass>
     void M2M(TreeClass& inTree){
+        // A new upward pass starts from zero (the expansions above the root are not part of the tree, rebuild() does not reset them)
+        multipoles.assign(multipoles.size(), CellMultipoleType());
         {
             assert(inTree.getHeight() > 1);
             std::vector<std::reference_wrapper<const CellMultipoleType>> children;
@@ -96,6 +98,8 @@ protected:
 
     template <class TreeClass>
     void M2L(TreeClass& inTree){
+        // Same for the local expansions, which the transfers and then L2L add to
+        locals.assign(locals.size(), CellLocalType());
         if(nbLevelsAbove0 == 0){
             const long int idxLevel = configuration.getTreeHeight()-2;
             assert(idxLevel == 3);
